@@ -37,6 +37,9 @@ logging.getLogger("asyncio").setLevel(logging.CRITICAL)
 # callbacks on whatever loop is running at that moment.  Collection happens between executions.
 gc.disable()
 sys.unraisablehook = lambda *a, **k: None
+import threading as _threading  # noqa: E402
+
+_threading.excepthook = lambda *a, **k: None  # abandoned worker threads dying after teardown
 
 # ---------------------------------------------------------------------------------------
 # deterministic hashing of tasks and cancel scopes (set iteration order)
@@ -239,8 +242,12 @@ def _residue(loop):
 
 def execute(build, prefix=(), *, eager=False, salt=1, fine=False, horizon=5000,
             k2_budget=2, idle_only=False, k1=True, residue=False, keep_world=False,
-            controller=None, env_budget=None, cuts=None):
+            controller=None, env_budget=None, cuts=None, threads=None):
     """Run one execution.  ``build(world)`` returns the main coroutine function."""
+    if threads is not None:
+        from .texec import execute_threaded
+
+        return execute_threaded(build, prefix, threads, eager=eager, salt=salt)
     _state["n"] = 0
     _state["salt"] = salt
     _state["tasks"] = []
